@@ -16,7 +16,7 @@ PROFILE = {'name': 'c11', 'spec': {}, 'opts': {}, 'medium_rate': 0.15, 'shipped_
 
 def plan(tier):
     return {'cases_per_shard': 400 if tier == 'quick' else 9000,
-            'time_cap_s': 45 if tier == 'quick' else 560}
+            'time_cap_s': 90 if tier == 'quick' else 560}
 
 
 BIG = 99999999999999999      # an "uncapacitated" quota; not representable as a double
